@@ -23,11 +23,15 @@ import os
 RT_IMPORT = 'PyRtC08'
 
 LEAN_TY = {'V': 'V', 'K': 'K', 'Path': 'List K', 'Pairs': 'List (K × V)', 'Vals': 'List V', 'OptV': 'Option V',
-           'KV': 'K × V', 'EnterRes': 'EnterRes V K', 'Exc': 'Exc'}
+           'KV': 'K × V', 'EnterRes': 'EnterRes V K', 'Exc': 'Exc',
+           # loop mode (the main loop of remap)
+           'Bool': 'Bool', 'Id': 'V', 'Registry': 'List (V × V)', 'Stack': 'List (Frame V K)',
+           'NIS': 'List (List K × List (K × V))', 'VisitRes': 'VisitRes V K', 'OptPairs': 'Option (List (K × V))',
+           'EnterFn': 'EnterFn σ V K', 'ExitFn': 'ExitFn σ V K', 'VisitFn': 'VisitFn σ V K'}
 EXC = ['KeyError', 'IndexError', 'TypeError', 'ValueError', 'AttributeError', 'RuntimeError', 'PathAccessError']
 ABC_TESTS = {'Mapping': 'isMapping', 'Sequence': 'isSequence', 'Set': 'isSet'}
 KEYWORDS = {'default', 'end', 'from', 'at', 'open', 'exit', 'then', 'else', 'do', 'fun', 'let', 'have', 'show', 'match',
-            'with', 'in', 'if', 'return', 'where', 'local', 'section', 'namespace', 'O', 's', 'σ', 'V', 'K', 'R', 'e'}
+            'with', 'in', 'if', 'return', 'where', 'local', 'section', 'namespace', 'O', 's', 'σ', 'V', 'K', 'R', 'e', 'fuel'}
 
 
 class Unsupported(Exception):
@@ -49,7 +53,7 @@ def terminates(stmts):
     if not stmts:
         return False
     st = stmts[-1]
-    if isinstance(st, (ast.Return, ast.Raise)):
+    if isinstance(st, (ast.Return, ast.Raise, ast.Continue)):
         return True
     return isinstance(st, ast.If) and terminates(st.body) and terminates(st.orelse)
 
@@ -75,6 +79,21 @@ class FnTr:
         self.n = 0
         self.in_loop = 0
         self.notes = []
+        self.loop_mode = False
+        self.kcontinue = None
+
+    # hooks of loop mode (class LoopTr)
+    def extra_stmt(self, st, rest, env, k, kx, reraise, cont):
+        return None
+
+    def special_if(self, st, rest, env, k, kx, reraise, cont):
+        return None
+
+    def extra_effect(self, e, env):
+        return None
+
+    def extra_test(self, e, env):
+        return None
 
     def fresh(self, p):
         self.n += 1
@@ -100,7 +119,7 @@ class FnTr:
                     and e.elt.id == g[0].target.elts[1].id):
                 return '(%s.map (fun kv => kv.2))' % mangle(g[0].iter.id), 'Vals'
             raise Unsupported(e, 'list comprehension other than `[v for i, v in <pairs>]`')
-        if isinstance(e, ast.Tuple) and want == 'KV' and len(e.elts) == 2:
+        if isinstance(e, ast.Tuple) and len(e.elts) == 2 and (want == 'KV' or self.loop_mode):
             a, ta = self.pure(e.elts[0], env)
             b, tb = self.pure(e.elts[1], env)
             if (ta, tb) != ('K', 'V'):
@@ -139,6 +158,9 @@ class FnTr:
     def effect(self, e, env):
         """(kind, term, type) of an operation call: kind 'exc' : Except Exc T, 'excst' : Except Exc (T × σ),
         'st' : Except Exc σ (statement), 'val' : T (reads the store, cannot raise); None when `e` is not one"""
+        r = self.extra_effect(e, env)
+        if r is not None:
+            return r
         if isinstance(e, ast.Subscript) and isinstance(e.ctx, ast.Load):
             return 'exc', '(O.getitem s %s %s)' % (self.vname(e.value, env, 'V'), self.vname(e.slice, env, 'K')), 'V'
         if not isinstance(e, ast.Call) or e.keywords:
@@ -180,6 +202,9 @@ class FnTr:
             term, ex, ind(kx(ex, env), 2), pat, ind(cont(v, ty), 2))
 
     def test(self, e, env):
+        r = self.extra_test(e, env)
+        if r is not None:
+            return r
         if isinstance(e, ast.BoolOp):
             ts = [self.test(v, env) for v in e.values]
             if any(t is True or t is False for t in ts):
@@ -246,14 +271,34 @@ class FnTr:
         return None
 
     def join(self, stmts_after, carried, env, k, make):
-        """bind the continuation of a compound statement once (`let kN := fun carried s => rest`)"""
+        """bind the continuation of a compound statement once (`let kN := fun carried s => rest`); a variable first
+        assigned inside, on EVERY path that falls through and with one type, is a parameter too"""
         if not stmts_after:
             return make(k)
         kn = self.fresh('k')
-        ps = ''.join(' (%s : %s)' % (mangle(v), LEAN_TY[env[v]]) for v in carried)
-        rest = k(env)
-        call = lambda env2: '%s%s s' % (kn, ''.join(' ' + mangle(v) for v in carried))   # noqa: E731
-        return 'let %s := fun%s (s : σ) =>\n%s\n%s' % (kn, ps, ind(rest, 2), make(call))
+        calls = []
+
+        def call(env2):
+            calls.append(env2)
+            return '\u27ea%s\u27eb' % kn
+        body = make(call)
+        news = [v for v in (calls[0] if calls else {}) if v not in env
+                and all(v in e and e[v] == calls[0][v] for e in calls) and calls[0][v] in LEAN_TY]
+        env_after = dict(env)
+        for v in news:
+            env_after[v] = calls[0][v]
+        ps = ''.join(' (%s : %s)' % (mangle(v), LEAN_TY[env_after[v]]) for v in carried + news)
+        rest = k(env_after)
+        body = body.replace('\u27ea%s\u27eb' % kn, '%s%s s' % (kn, ''.join(' ' + mangle(v) for v in carried + news)))
+        return 'let %s := fun%s (s : σ) =>\n%s\n%s' % (kn, ps, ind(rest, 2), body)
+
+    @staticmethod
+    def merge(env, env2, carried):
+        out = dict(env)
+        for v, t in env2.items():
+            if v in carried or v not in env:
+                out[v] = t
+        return out
 
     def block(self, stmts, env, k, kx, reraise=None):
         """term of the statements `stmts`; `k(env)`: term of what follows, `kx(exc_term, env)`: of a raised exception"""
@@ -261,6 +306,9 @@ class FnTr:
             return k(env)
         st, rest = stmts[0], stmts[1:]
         cont = lambda env2: self.block(rest, env2, k, kx, reraise)                          # noqa: E731
+        r = self.extra_stmt(st, rest, env, k, kx, reraise, cont)
+        if r is not None:
+            return r
         if isinstance(st, ast.Pass) or (isinstance(st, ast.Expr) and isinstance(st.value, ast.Constant)):
             return cont(env)
         if isinstance(st, ast.Return):
@@ -287,7 +335,7 @@ class FnTr:
             x = st.targets[0].id
 
             def bind(t, ty):
-                if x in env and env[x] != ty:
+                if x in env and env[x] != ty and env[x] != 'VisTrue':
                     raise Unsupported(st, '`%s` changes type from %s to %s' % (x, env[x], ty))
                 env2 = dict(env)
                 env2[x] = ty
@@ -304,6 +352,9 @@ class FnTr:
                 st = ast.copy_location(ast.If(test=st.test, body=st.body, orelse=rest), st)
                 rest = []
                 cont = lambda env2: k(env2)                                                  # noqa: E731
+            r = self.special_if(st, rest, env, k, kx, reraise, cont)
+            if r is not None:
+                return r
             sen = self.sentinel_test(st.test, env)
             if sen is not None:
                 x, is_ = sen
@@ -313,7 +364,7 @@ class FnTr:
                 carried = [v for v in assigned([st]) if v in env and v != x]
 
                 def make(kj):
-                    kk = lambda env2: kj(dict(env, **{v: env2[v] for v in carried}))        # noqa: E731
+                    kk = lambda env2: kj(self.merge(env, env2, carried))        # noqa: E731
                     a = self.block(nb, env, kk, kx, reraise)
                     b = self.block(sb, env_v, kk, kx, reraise)
                     return 'match %s with\n| none =>\n%s\n| some %s =>\n%s' % (mangle(x), ind(a, 2), mangle(x), ind(b, 2))
@@ -324,7 +375,7 @@ class FnTr:
             carried = [v for v in assigned([st]) if v in env]
 
             def make(kj):
-                kk = lambda env2: kj(dict(env, **{v: env2[v] for v in carried}))            # noqa: E731
+                kk = lambda env2: kj(self.merge(env, env2, carried))            # noqa: E731
                 a = self.block(st.body, env, kk, kx, reraise)
                 b = self.block(st.orelse, env, kk, kx, reraise)
                 return 'if %s then\n%s\nelse\n%s' % (t, ind(a, 2), ind(b, 2))
@@ -335,7 +386,7 @@ class FnTr:
             carried = [v for v in assigned([st]) if v in env]
 
             def make(kj):
-                kk = lambda env2: kj(dict(env, **{v: env2[v] for v in carried}))            # noqa: E731
+                kk = lambda env2: kj(self.merge(env, env2, carried))            # noqa: E731
 
                 def handler(ex, env_at):
                     e1 = self.fresh('x')
@@ -345,9 +396,9 @@ class FnTr:
                             raise Unsupported(h, 'bare `except:`')
                         classes = h.type.elts if isinstance(h.type, ast.Tuple) else [h.type]
                         for c in classes:
-                            if not (isinstance(c, ast.Name) and c.id in EXC):
+                            if not (isinstance(c, ast.Name) and c.id in EXC + ['Exception']):
                                 raise Unsupported(c, 'handler class `%s`' % ast.unparse(c))
-                        cond = ' || '.join('%s.isA .%s' % (e1, c.id) for c in classes)
+                        cond = ' || '.join('true' if c.id == 'Exception' else '%s.isA .%s' % (e1, c.id) for c in classes)
                         env_h = dict(env_at)
                         if h.name:
                             env_h[h.name] = 'Exc'
@@ -458,7 +509,7 @@ def translate_source(src, specs, module_name, rel):
         try:
             fdef = find_function(tree, spec['qualname'])
             info['lines'] = '%d-%d' % (fdef.lineno, fdef.end_lineno)
-            text = FnTr(fdef, spec).emit()
+            text = (LoopTr if spec.get('kind') == 'loop' else FnTr)(fdef, spec).emit()
         except (Unsupported, RecursionError) as e:
             info['error'] = str(e) or type(e).__name__
             parts.append('-- NOT TRANSLATED: %s: %s\n' % (spec['qualname'], info['error'].replace('\n', ' ')))
@@ -498,3 +549,301 @@ def generate(pid, repo, specs):
 def selftest(pids, quick=False, seed=0, verbose=True):
     import py2lean_c08_selftest
     return py2lean_c08_selftest.run(pids, quick=quick, seed=seed, verbose=verbose)
+
+
+# ---------------------------------------------------------------------------------------------- loop mode
+class LoopTr(FnTr):
+    """the main loop of `remap` (spec `kind: 'loop'`): the statements from the first assignment of the spec's `stack`
+    variable to the end of the function.  What precedes (argument checks, `kwargs`, the trace flags) is not translated:
+    the variables it leaves are parameters.  Rules: notes/SRCTIE.md 7.6."""
+
+    def __init__(self, fdef, spec):
+        super().__init__(fdef, spec)
+        self.loop_mode = True
+        self.L = spec['loop']
+
+    # -- expressions / operations
+    def extra_effect(self, e, env):
+        L = self.L
+        if isinstance(e, ast.Call) and isinstance(e.func, ast.Name) and e.func.id in L['callbacks'] and not e.keywords:
+            lean, tys, res = L['callbacks'][e.func.id]
+            if len(e.args) != len(tys):
+                raise Unsupported(e, 'callback `%s` with %d arguments' % (e.func.id, len(e.args)))
+            args = [self.vname(a, env, t) for a, t in zip(e.args, tys)]
+            return 'excst', '(%s s %s)' % (lean, ' '.join(args)), res
+        if isinstance(e, ast.Subscript) and isinstance(e.ctx, ast.Load) and isinstance(e.value, ast.Name) \
+                and env.get(e.value.id) == 'Registry':
+            return 'exc', '(regGet %s %s)' % (mangle(e.value.id), self.vname(e.slice, env, 'Id')), 'V'
+        if isinstance(e, ast.Constant) and e.value is True:
+            return 'val', 'VisitRes.true_', 'VisitRes'
+        return None
+
+    def extra_test(self, e, env):
+        L = self.L
+        if isinstance(e, ast.Name) and env.get(e.id) == 'Bool':
+            return mangle(e.id)
+        if isinstance(e, ast.Name) and env.get(e.id) in ('Pairs', 'NIS', 'Stack', 'Vals'):
+            return '(!%s.isEmpty)' % mangle(e.id)
+        if isinstance(e, ast.Compare) and len(e.ops) == 1 and isinstance(e.left, ast.Name) \
+                and isinstance(e.comparators[0], ast.Name):
+            a, b, op = e.left.id, e.comparators[0].id, e.ops[0]
+            if isinstance(op, (ast.Is, ast.IsNot)) and [a, b] in [list(x[:2]) for x in L['identity_flags']]:
+                flag = [x[2] for x in L['identity_flags'] if list(x[:2]) == [a, b]][0]
+                return flag if isinstance(op, ast.Is) else '(!%s)' % flag
+            if isinstance(op, (ast.Is, ast.IsNot)) and env.get(a) == 'V' and env.get(b) == 'V':
+                t = '(decide (%s = %s))' % (mangle(a), mangle(b))
+                return t if isinstance(op, ast.Is) else '(!%s)' % t
+            if isinstance(op, (ast.In, ast.NotIn)) and env.get(a) == 'Id' and env.get(b) == 'Registry':
+                t = '(regLookup %s %s).isSome' % (mangle(b), mangle(a))
+                return '(%s)' % t if isinstance(op, ast.In) else '(!%s)' % t
+        return None
+
+    # -- statements
+    def is_print_if(self, st):
+        return (isinstance(st, ast.If) and isinstance(st.test, ast.Name) and st.test.id in self.L['trace_flags']
+                and not st.orelse and all(isinstance(b, ast.Expr) and isinstance(b.value, ast.Call)
+                                          and isinstance(b.value.func, ast.Name) and b.value.func.id == 'print'
+                                          for b in st.body))
+
+    def extra_stmt(self, st, rest, env, k, kx, reraise, cont):
+        L = self.L
+        if self.is_print_if(st):                 # output under a trace flag: not modelled, no effect on the state
+            return cont(env)
+        if isinstance(st, ast.Continue):
+            if rest or self.kcontinue is None:
+                raise Unsupported(st, '`continue` here')
+            return self.kcontinue(env)
+        if isinstance(st, ast.While):
+            return self.while_loop(st, rest, env, cont, kx)
+        if isinstance(st, ast.Return) and isinstance(st.value, ast.Name) and env.get(st.value.id) == 'OptV' and not rest \
+                and not self.in_loop:
+            x = mangle(st.value.id)
+            return 'match %s with\n| none =>\n%s\n| some %s =>\n  .ok (%s, s)' % (
+                x, ind(kx('Exc.UnboundLocalError', env), 2), x, x)
+        if isinstance(st, ast.AugAssign) and isinstance(st.op, ast.Add) and isinstance(st.target, ast.Name) \
+                and env.get(st.target.id) == 'Path' and isinstance(st.value, ast.Tuple) and len(st.value.elts) == 1:
+            x = mangle(st.target.id)
+            return 'let %s := %s ++ [%s]\n%s' % (x, x, self.vname(st.value.elts[0], env, 'K'), cont(env))
+        if isinstance(st, ast.Try) and len(st.body) == 1 and isinstance(st.body[0], ast.Assign) \
+                and isinstance(st.body[0].targets[0], ast.Tuple) and isinstance(st.body[0].value, ast.Name) \
+                and env.get(st.body[0].value.id) == 'EnterRes' and len(st.handlers) == 1 and not st.orelse \
+                and not st.finalbody and isinstance(st.handlers[0].type, ast.Name) and st.handlers[0].type.id == 'TypeError' \
+                and terminates(st.handlers[0].body):
+            # unpacking a value whose declared type is a pair cannot raise: the handler is unreachable
+            tg = st.body[0].targets[0].elts
+            if len(tg) != 2 or not all(isinstance(x, ast.Name) for x in tg):
+                raise Unsupported(st, 'unpacking of an enter result')
+            r = mangle(st.body[0].value.id)
+            env2 = dict(env, **{tg[0].id: 'V', tg[1].id: 'OptPairs'})
+            return 'let %s := %s.1\nlet %s := %s.2\n%s' % (mangle(tg[0].id), r, mangle(tg[1].id), r, cont(env2))
+        if isinstance(st, ast.Assign) and len(st.targets) == 1:
+            tg, v = st.targets[0], st.value
+            # initialisation by literals, typed by the spec's `locals`
+            if isinstance(tg, ast.Tuple) and isinstance(v, ast.Tuple) and len(tg.elts) == len(v.elts) \
+                    and all(isinstance(x, ast.Name) for x in tg.elts):
+                out, env2 = [], dict(env)
+                for x, val in zip(tg.elts, v.elts):
+                    t, ty = self.literal(x.id, val, env)
+                    out.append('let %s : %s := %s' % (mangle(x.id), LEAN_TY[ty], t))
+                    env2[x.id] = ty
+                return '\n'.join(out) + '\n' + cont(env2)
+            if isinstance(tg, ast.Name) and tg.id in L['locals'] and tg.id not in env \
+                    and isinstance(v, (ast.List, ast.Tuple, ast.Dict)):
+                t, ty = self.literal(tg.id, v, env)
+                return 'let %s : %s := %s\n%s' % (mangle(tg.id), LEAN_TY[ty], t, cont(dict(env, **{tg.id: ty})))
+            # id_value = id(x)
+            if isinstance(tg, ast.Name) and isinstance(v, ast.Call) and isinstance(v.func, ast.Name) and v.func.id == 'id' \
+                    and len(v.args) == 1 and isinstance(v.args[0], ast.Name) and not v.keywords:
+                y = v.args[0].id
+                if env.get(y) == 'V':
+                    return 'let %s := %s\n%s' % (mangle(tg.id), mangle(y), cont(dict(env, **{tg.id: 'Id'})))
+                if env.get(y) == 'Triple':        # the id of the exit triple: never used (any use is refused)
+                    return cont(dict(env, **{tg.id: 'Dead'}))
+                raise Unsupported(st, '`id` of `%s`' % y)
+            # key, new_parent, old_parent = value   (the exit entry)
+            if isinstance(tg, ast.Tuple) and isinstance(v, ast.Name) and env.get(v.id) == 'Triple' and len(tg.elts) == 3 \
+                    and all(isinstance(x, ast.Name) for x in tg.elts):
+                env2 = {a: t for a, t in env.items() if a != v.id}
+                lets = []
+                for x, (f, ty) in zip(tg.elts, self.triple):
+                    lets.append('let %s := %s' % (mangle(x.id), f))
+                    env2[x.id] = ty
+                return '\n'.join(lets) + '\n' + cont(env2)
+            # path, new_items = new_items_stack.pop()
+            if isinstance(tg, ast.Tuple) and len(tg.elts) == 2 and all(isinstance(x, ast.Name) for x in tg.elts) \
+                    and isinstance(v, ast.Call) and isinstance(v.func, ast.Attribute) and v.func.attr == 'pop' \
+                    and not v.args and isinstance(v.func.value, ast.Name) and env.get(v.func.value.id) == 'NIS':
+                n = mangle(v.func.value.id)
+                a, b = tg.elts[0].id, tg.elts[1].id
+                env2 = dict(env, **{a: 'Path', b: 'Pairs'})
+                return 'match %s with\n| [] =>\n%s\n| (%s, %s) :: %s =>\n%s' % (
+                    n, ind(kx('Exc.IndexError', env), 2), mangle(a), mangle(b), n, ind(cont(env2), 2))
+            # registry[id_value] = x
+            if isinstance(tg, ast.Subscript) and isinstance(tg.value, ast.Name) and env.get(tg.value.id) == 'Registry':
+                r = mangle(tg.value.id)
+                return 'let %s := (%s, %s) :: %s\n%s' % (r, self.vname(tg.slice, env, 'Id'), self.vname(v, env, 'V'), r,
+                                                        cont(env))
+        if isinstance(st, ast.Expr) and isinstance(st.value, ast.Call) and isinstance(st.value.func, ast.Attribute) \
+                and len(st.value.args) == 1 and not st.value.keywords:
+            f, a = st.value.func, st.value.args[0]
+            if isinstance(f.value, ast.Name):
+                lst, ty = mangle(f.value.id), env.get(f.value.id)
+                if f.attr == 'append' and ty == 'Vals':
+                    return 'let %s := %s ++ [%s]\n%s' % (lst, lst, self.vname(a, env, 'V'), cont(env))
+                if f.attr == 'append' and ty == 'NIS' and isinstance(a, ast.Tuple) and len(a.elts) == 2 \
+                        and isinstance(a.elts[1], ast.List) and not a.elts[1].elts:
+                    return 'let %s := (%s, []) :: %s\n%s' % (lst, self.vname(a.elts[0], env, 'Path'), lst, cont(env))
+                if f.attr == 'append' and ty == 'Stack' and isinstance(a, ast.Tuple) and len(a.elts) == 2 \
+                        and isinstance(a.elts[0], ast.Name) and a.elts[0].id == L['exit_marker'] \
+                        and isinstance(a.elts[1], ast.Tuple) and len(a.elts[1].elts) == 3:
+                    x = a.elts[1].elts
+                    return 'let %s := Frame.exit %s %s %s :: %s\n%s' % (
+                        lst, self.vname(x[0], env, 'K'), self.vname(x[1], env, 'V'), self.vname(x[2], env, 'V'), lst, cont(env))
+                if f.attr == 'extend' and ty == 'Stack' and ast.unparse(a).startswith('reversed(list(') \
+                        and isinstance(a, ast.Call) and isinstance(a.args[0], ast.Call) \
+                        and isinstance(a.args[0].args[0], ast.Name) and len(a.args) == 1 and len(a.args[0].args) == 1:
+                    return 'let %s := (%s.map fun kv => Frame.item kv.1 kv.2) ++ %s\n%s' % (
+                        lst, self.vname(a.args[0].args[0], env, 'Pairs'), lst, cont(env))
+            # new_items_stack[-1][1].append(item)
+            if f.attr == 'append' and ast.unparse(f.value).endswith('[-1][1]') and isinstance(f.value, ast.Subscript) \
+                    and isinstance(f.value.value, ast.Subscript) and isinstance(f.value.value.value, ast.Name) \
+                    and env.get(f.value.value.value.id) == 'NIS':
+                n = mangle(f.value.value.value.id)
+                pp, acc, nr = self.fresh('pp'), self.fresh('acc'), self.fresh('nr')
+                return 'match %s with\n| [] =>\n%s\n| (%s, %s) :: %s =>\n  let %s := (%s, %s ++ [%s]) :: %s\n%s' % (
+                    n, ind(kx('Exc.IndexError', env), 2), pp, acc, nr, n, pp, acc, self.vname(a, env, 'KV'), nr,
+                    ind(cont(env), 2))
+        return None
+
+    def literal(self, name, val, env):
+        ty = self.L['locals'].get(name)
+        if ty is None:
+            raise Unsupported(val, 'no declared type for `%s`' % name)
+        if isinstance(val, (ast.Tuple, ast.List)) and not val.elts and ty in ('Path', 'NIS', 'Vals'):
+            return '[]', ty
+        if isinstance(val, ast.Dict) and not val.keys and ty == 'Registry':
+            return '[]', ty
+        if ty == 'Stack' and isinstance(val, ast.List) and len(val.elts) == 1 and isinstance(val.elts[0], ast.Tuple) \
+                and len(val.elts[0].elts) == 2 and isinstance(val.elts[0].elts[0], ast.Constant) \
+                and val.elts[0].elts[0].value is None:
+            return '[Frame.item %s %s]' % (self.L['none_key'], self.vname(val.elts[0].elts[1], env, 'V')), ty
+        raise Unsupported(val, 'initial value `%s` of `%s`' % (ast.unparse(val), name))
+
+    def special_if(self, st, rest, env, k, kx, reraise, cont):
+        t = st.test
+        seq = lambda b: b if terminates(b) else b + rest                                   # noqa: E731
+        # key is _REMAP_EXIT: decided by the kind of the popped entry
+        if isinstance(t, ast.Compare) and len(t.ops) == 1 and isinstance(t.ops[0], ast.Is) and isinstance(t.left, ast.Name) \
+                and isinstance(t.comparators[0], ast.Name) and t.comparators[0].id == self.L['exit_marker']:
+            ty = env.get(t.left.id)
+            if ty not in ('K', 'ExitKey'):
+                raise Unsupported(st, '`%s` compared with the exit marker' % t.left.id)
+            return self.block(seq(st.body if ty == 'ExitKey' else st.orelse), env, k, kx, reraise)
+        if isinstance(t, ast.Compare) and len(t.ops) == 1 and isinstance(t.ops[0], (ast.Is, ast.IsNot)) \
+                and isinstance(t.left, ast.Name) and isinstance(t.comparators[0], ast.Constant) \
+                and t.comparators[0].value in (True, False) and isinstance(t.comparators[0].value, bool):
+            x, ty, c, is_ = t.left.id, env.get(t.left.id), t.comparators[0].value, isinstance(t.ops[0], ast.Is)
+            yes, no = (st.body, st.orelse) if is_ else (st.orelse, st.body)
+            if ty == 'OptPairs' and c is False:          # items is False  /  is not False
+                mx = mangle(x)
+                a = self.block(seq(yes), env, k, kx, reraise)
+                b = self.block(seq(no), dict(env, **{x: 'Pairs'}), k, kx, reraise)
+                return 'match %s with\n| none =>\n%s\n| some %s =>\n%s' % (mx, ind(a, 2), mx, ind(b, 2))
+            if ty == 'VisitRes':                          # case analysis of a visit result, refined in the branches
+                mx = mangle(x)
+                vk, vv = self.fresh('vk'), self.fresh('vv')
+                br = {}
+                for con, ty2 in (('false_', 'VisFalse'), ('true_', 'VisTrue'), ('pair', 'KV')):
+                    hit = (con == 'false_') if c is False else (con == 'true_')
+                    br[con] = self.block(seq(yes if hit else no), dict(env, **{x: ty2}), k, kx, reraise)
+                return ('match %s with\n| .false_ =>\n%s\n| .true_ =>\n%s\n| .pair %s %s =>\n  let %s := (%s, %s)\n%s' % (
+                    mx, ind(br['false_'], 2), ind(br['true_'], 2), vk, vv, mx, vk, vv, ind(br['pair'], 2)))
+            if ty in ('VisTrue', 'VisFalse', 'KV'):       # already decided
+                val = (ty == 'VisTrue') if c is True else (ty == 'VisFalse')
+                return self.block(seq((st.body if val else st.orelse) if is_ else (st.orelse if val else st.body)),
+                                  env, k, kx, reraise)
+        return None
+
+    def while_loop(self, st, rest, env, cont, kx):
+        L = self.L
+        if st.orelse or not (isinstance(st.test, ast.Name) and env.get(st.test.id) == 'Stack') or self.in_loop:
+            raise Unsupported(st, '`while` other than `while <stack>:`')
+        for n in ast.walk(st):
+            if isinstance(n, ast.Break):
+                raise Unsupported(n, '`break`')
+        stack = st.test.id
+        first = st.body[0] if st.body else None
+        if not (isinstance(first, ast.Assign) and isinstance(first.targets[0], ast.Tuple) and len(first.targets[0].elts) == 2
+                and all(isinstance(x, ast.Name) for x in first.targets[0].elts) and ast.unparse(first.value) == stack + '.pop()'):
+            raise Unsupported(st, 'the loop body must start with `key, value = %s.pop()`' % stack)
+        kname, vname = [x.id for x in first.targets[0].elts]
+        body = st.body[1:]
+        res = L['result_var']
+        # loop state: variables assigned in the body, and the declared mutable locals (changed through methods)
+        state = sorted({v for v in assigned(st.body) if v in env} | {v for v in L['locals'] if v in env})
+        if res in env or res != vname:
+            raise Unsupported(st, 'the loop result `%s`' % res)
+        fixed = [v for v in env if v not in state]
+        lname = '%s.loop%d' % (self.name, len(self.loops) + 1)
+        self.loops.append(None)
+        idx = len(self.loops) - 1
+        fixed_args = ''.join(' ' + mangle(v) for v in fixed)
+        sargs = lambda: ''.join(' ' + mangle(v) for v in state)                              # noqa: E731
+        self.kcontinue = lambda env2: '%s%s fuel%s (some %s) s' % (lname, fixed_args, sargs(), mangle(res))
+        self.in_loop += 1
+        env_i = dict(env, **{kname: 'K', vname: 'V'})
+        b_item = self.block(body, env_i, self.kcontinue, lambda ex, env2: '.error %s' % ex)
+        self.triple = [('fk', 'K'), ('fnp', 'V'), ('fold', 'V')]
+        env_e = dict(env, **{kname: 'ExitKey', vname: 'Triple'})
+        b_exit = self.block(body, env_e, self.kcontinue, lambda ex, env2: '.error %s' % ex)
+        self.in_loop -= 1
+        self.kcontinue = None
+        tup = '(%s)' % ', '.join([mangle(v) for v in state] + [mangle(res)])
+        tup_ty = '(%s)' % ' × '.join([LEAN_TY[env[v]] for v in state] + ['Option V'])
+        pats = ''.join(', ' + mangle(v) for v in state)
+        text = ('/-- `while %s:` (line %d of the function): one `fuel` per iteration; the entry popped decides between the\n'
+                '    two readings of the body (`%s is %s`) -/\n'
+                'def %s [DecidableEq V]%s : Nat →%s Option V → σ → R σ %s\n'
+                '  | 0%s, _, _ => .error Exc.OutOfFuel\n'
+                '  | fuel + 1%s, %s, s =>\n'
+                '    match %s with\n'
+                '    | [] => .ok (%s, s)\n'
+                '    | Frame.item %s %s :: %s =>\n%s\n'
+                '    | Frame.exit fk fnp fold :: %s =>\n%s\n' % (
+                    stack, st.lineno - self.f.lineno + 1, kname, L['exit_marker'], lname,
+                    ''.join(' (%s : %s)' % (mangle(v), LEAN_TY[env[v]]) for v in fixed),
+                    ''.join(' %s →' % LEAN_TY[env[v]] for v in state), tup_ty,
+                    ''.join(', _' for v in state), pats, mangle(res), mangle(stack), tup,
+                    mangle(kname), mangle(vname), mangle(stack), ind(b_item, 6), mangle(stack), ind(b_exit, 6)))
+        self.loops[idx] = text
+        ex = self.fresh('e')
+        env_after = dict(env, **{res: 'OptV'})
+        return 'match %s%s fuel%s none s with\n| .error %s =>\n%s\n| .ok (%s, s) =>\n%s' % (
+            lname, fixed_args, sargs(), ex, ind(kx(ex, {v: t for v, t in env.items() if v not in state}), 2), tup,
+            ind(cont(env_after), 2))
+
+    def emit(self):
+        L = self.L
+        a = self.f.args
+        names = [x.arg for x in a.args]
+        if names[:len(L['signature'])] != L['signature'] or a.vararg or a.kwonlyargs or a.posonlyargs:
+            raise Unsupported(self.f, 'parameters %r, the spec declares %r' % (names, L['signature']))
+        start = [i for i, st in enumerate(self.f.body) if L['stack'] in assigned([st])]
+        if not start:
+            raise Unsupported(self.f, 'no assignment of `%s`' % L['stack'])
+        body = self.f.body[start[0]:]
+        for st in self.f.body[:start[0]]:                      # the untranslated preamble must not touch the loop's variables
+            for v in assigned([st]):
+                if v in L['locals'] or v == L['result_var']:
+                    raise Unsupported(st, 'the preamble assigns `%s`' % v)
+        env = dict(self.spec['params'])
+
+        def fell(env2):
+            raise Unsupported(self.f, 'a path reaches the end of the function without return / raise')
+        term = self.block(body, env, fell, lambda ex, env2: '.error %s' % ex)
+        params = ''.join(' (%s : %s)' % (mangle(p), LEAN_TY[t]) for p, t in self.spec['params'].items())
+        head = ('/-- the main loop of `%s` (from the initialisation of `%s` to `return`): callbacks, flags and the `None` key are\n'
+                '    parameters; the value returned and the object store, or the exception class -/\n'
+                'def %s [DecidableEq V] (fuel : Nat) (s : σ)%s : R σ (%s) :=\n%s\n' % (
+                    self.spec['qualname'], L['stack'], self.name, params, LEAN_TY[self.ret], ind(term, 2)))
+        return '\n'.join(list(self.loops) + [head])
